@@ -142,6 +142,13 @@ theorem no_crash_param (c : Codec) (hg : c.Good) (m : Nat) (hf : c.Fixed m) (env
     (bs : Bytes) (hs : Small bs) : (parseG c env bs).out.isCrash = false :=
   parseD_no_crash c hg m hf env.mem env.depth 0 bs (Nat.zero_le _) (by omega) hs
 
+/-- non-vacuity: both repaired decoders are members of the family with `m = 32`, and so is a
+    hypothetical decoder with another limit -/
+example : codec1.maxNest = some 32 ∧ codec2.maxNest = some 32 ∧ codec1.Good ∧ codec1.Fixed 32 ∧ codec2.Fixed 32 ∧
+    ({ codec1 with maxNest := some 7 } : Codec).Fixed 7 ∧ codec1.CapSane ∧ codec2.CapSane :=
+  ⟨rfl, rfl, codec1_good, codec1_fixed, codec2_fixed, ⟨rfl, fun _ => ⟨rfl, rfl⟩, rfl⟩, fun _ => rfl,
+    fun h => by simp [codec2] at h⟩
+
 set_option maxRecDepth 8000 in
 /-- the limit is tight for the constant of the source: 32 nested arrays need the 33rd frame -/
 example : (parseD codec1 41 32 0 (nested 32)).out.crashKind = some .stackOverflow ∧
@@ -447,6 +454,9 @@ theorem encode_error5_decode (c : Codec) (h : c = codec1 ∨ c = codec2) (env : 
     (parseG c env (encodeErr5 msg ++ rest)).out = .ok (Val.error ([69, 82, 82, 32] ++ msg)).san (encodeErr5 msg).length := by
   rw [encodeErr5_eq] at hs ⊢
   exact encode2_decode c h env _ rest hw (by simpa [Val.depth] using hd) (by simp [Val.arr]) hs
+
+example : (Val.error ([69, 82, 82, 32] ++ [120, 13, 10, 121])).wf codec2 = true ∧
+    (parse2 env0 (encodeErr5 [120, 13, 10, 121])).out = .ok (.error [69, 82, 82, 32, 120, 32, 32, 121]) 11 := ⟨by decide, rfl⟩
 
 /-- encoder 6, the CLIENT side (`SimulatedReadBuffer::encode_command`, and every client that writes a
     command as an array of bulk strings): the frame `encCmd args` decodes — under RespCodec, on a
